@@ -280,13 +280,21 @@ func (r *runner) callLenient(c *callRec) string {
 		if k := r.regMap(c.caller.spec.Realm)[c.proc]; k != nil && (k.stalled || k.expGone != "") {
 			return "callee stalled"
 		}
+		for _, k := range r.everReg[c.caller.spec.Realm+"|"+c.proc] {
+			if k.stalled || k.epoch > 0 || k.expGone != "" {
+				return "possible callee stalled or gone"
+			}
+		}
 	}
 	return ""
 }
 
 // pendingOK: no reply is owed yet.
 func callPending(c *callRec) bool {
-	if c.meta || c.cancel != nil {
+	if c.cancel != nil {
+		return c.cancel.state == itPending // judged at the sender
+	}
+	if c.meta {
 		return false
 	}
 	if c.callee != nil && c.yielded == nil {
@@ -406,6 +414,8 @@ func (r *runner) check(final bool) {
 			case e.call != nil && e.call.yielded != nil && e.call.yielded.state == itAccepted && e.call.yielded.acc > e.call.yielded.enq:
 				// flushed together with everything else the callee had queued
 				e.void = "callee's YIELD taken late"
+			case e.call != nil && e.call.cancel != nil && e.call.cancel.state == itAccepted && e.call.cancel.acc > e.call.cancel.enq:
+				e.void = "CANCEL taken late"
 			case e.call != nil && r.callLenient(e.call) != "":
 				e.void = r.callLenient(e.call)
 			}
